@@ -1,0 +1,51 @@
+//go:build verif
+
+package recover
+
+// Contracts for /verif (contract-based deductive verification of the real
+// code). Comment-only: no code; visible only with the build tag "verif".
+//
+//@ func (*Recover).EndPost
+//@   property C01 C02 C03 C05 C06 C18
+//@   -- C05: the password is only changed on the strength of a token that decodes to
+//@   -- exactly 64 bytes whose first half selects the account and whose second half
+//@   -- hashes to the stored verifier, before the stored expiry
+//@   ensures[C05,C01,C06] accept_guard: each Store.Save(?s) -> _ =>
+//@       before Store.LoadByRecoverSelector(?sel) -> (?u, ?le) :: le == nil && u == s &&
+//@       before Body.Read(PageRecoverEnd) -> (?vals, ?re) :: re == nil &&
+//@          b64url_ok(val(vals, "GetToken")) && len(b64url_dec(val(vals, "GetToken"))) == 64 &&
+//@          sel == b64std(sha512(substr(b64url_dec(val(vals, "GetToken")), 0, 32))) &&
+//@          b64std_ok(RecoverVerifier(u)) &&
+//@          sha512(substr(b64url_dec(val(vals, "GetToken")), 32, 32)) == b64std_dec(RecoverVerifier(u)) &&
+//@          (emits Now() -> ?t :: t <= RecoverExpiry(u))
+//@   ensures[C05] spent_on_use: each Store.Save(?s) -> _ => RecoverSelector(s) == "" && RecoverVerifier(s) == ""
+//@   ensures[C06] hash_then_save: each Store.Save(?s) -> _ =>
+//@       before Hash.Generate(?pw) -> (?h, ?he) :: he == nil && Password(s) == h &&
+//@       before Body.Read(PageRecoverEnd) -> (?vals, _) :: pw == val(vals, "GetPassword")
+//@   ensures[C06] only_own_record: each Store.Save(?s) -> _ => PID(s) == old(PID(s)) && Email(s) == old(Email(s))
+//@   ensures[C06] event_fired: each Redirect(_) =>
+//@       before Fire("After", EventRecoverEnd, ?cu, _, _) :: before Store.Save(?s) -> ?e :: e == nil && cu == s
+//@   ensures[C05] reject_changes_nothing: (each Sess.Put(_, _) => before Store.Save(_) -> ?e :: e == nil) && !emits Sess.Del(_) && !emits Cook.Put(_, _)
+//@   -- C01: logging in after recovery needs the configuration flag and the saved change
+//@   ensures[C01] session_guard: each Sess.Put(?k, ?v) => k == "uid" && r.Config.Modules.RecoverLoginAfterRecovery &&
+//@       before Store.Save(?s) -> ?e :: e == nil && PID(s) == v
+//@   ensures[C02] hijack_fired: each Sess.Put("uid", ?v) =>
+//@       before Fire("Before", EventAuthHijack, ?cu, _, _) -> (?hd, ?e) :: hd == false && e == nil && PID(cu) == v
+//@   ensures[C03] login_veto: each Sess.Put("uid", ?v) =>
+//@       before Fire("Before", EventAuth, ?cu, _, _) -> (?hd, ?e) :: hd == false && e == nil && PID(cu) == v
+//@   ensures[C18] no_panic: !panics
+//@   ensures[C18] save_error_outcome: each Store.Save(_) -> ?e => e != nil ==> (result == e && !emits Sess.Put(_, _) && !emits Redirect(_))
+//@   ensures[C18] hash_error_outcome: each Hash.Generate(_) -> (_, ?e) => e != nil ==> (result == e && !emits Store.Save(_) && !emits Redirect(_))
+//@   ensures[C18] load_error_outcome: each Store.LoadByRecoverSelector(_) -> (_, ?e) => (e != nil && e != ErrUserNotFound) ==> (result == e && !emits Store.Save(_))
+//@
+//@ func (*Recover).StartPost
+//@   property C05 C18
+//@   -- a new recovery request overwrites selector, verifier and expiry with fresh ones
+//@   ensures[C05] reissue_overwrites: each Store.Save(?s) -> _ =>
+//@       (emits Rand.Read(?raw) -> ?re :: re == nil && len(raw) == 64 &&
+//@           RecoverSelector(s) == b64std(sha512(substr(raw, 0, 32))) &&
+//@           RecoverVerifier(s) == b64std(sha512(substr(raw, 32, 32)))) &&
+//@       (emits Now() -> ?t :: RecoverExpiry(s) == t + r.Config.Modules.RecoverTokenDuration)
+//@   ensures[C05] never_touches_session: !emits Sess.Put(_, _)
+//@   ensures[C18] no_panic: !panics
+//@   ensures[C18] save_error_outcome: each Store.Save(_) -> ?e => e != nil ==> (result == e && !emits Mail.Send(_) && !emits Redirect(_))
